@@ -57,27 +57,67 @@ extern "C" int pthread_mutex_lock(pthread_mutex_t *m) {
     return real(m);
 }
 // on the LOOP thread, only while it is inside cleanup(): a pause after each unlock lets workers reach
-// their wait predicate between cleanup()'s critical section and what cleanup() does next
+// their wait predicate between cleanup()'s critical section and what cleanup() does next.
+// on WORKER threads: a rare pause after an unlock (the last unlock of a voluntarily exiting worker is
+// the one after it removed itself from the cabinet: the thread is still alive for a while).
 static std::atomic<int> g_in_cleanup{0};
 extern "C" int pthread_mutex_unlock(pthread_mutex_t *m) {
     static mlock_t real = (mlock_t)dlsym(RTLD_NEXT, "pthread_mutex_unlock");
     int r = real(m);
     int p = g_perturb.load(std::memory_order_relaxed);
-    if (p != 0 && g_in_cleanup.load(std::memory_order_relaxed) && pthread_equal(pthread_self(), g_main_thr)) {
-        uint32_t x = rnd();
-        if ((int)(x % 1000) < p) usleep(50 + (x >> 10) % 1500);
+    if (p != 0) {
+        if (pthread_equal(pthread_self(), g_main_thr)) {
+            if (g_in_cleanup.load(std::memory_order_relaxed)) {
+                uint32_t x = rnd();
+                if ((int)(x % 1000) < p) usleep(50 + (x >> 10) % 1500);
+            }
+        } else {
+            uint32_t x = rnd();
+            if ((int)(x % 1000) < p / 3) usleep(100 + (x >> 10) % 2900);
+        }
     }
     return r;
 }
+static std::atomic<int> g_in_wait{0};             // worker threads blocked in pthread_cond_wait
 extern "C" int pthread_cond_wait(pthread_cond_t *c, pthread_mutex_t *m) {
     static cwait_t real = (cwait_t)dlsym(RTLD_NEXT, "pthread_cond_wait");
+    bool worker = !pthread_equal(pthread_self(), g_main_thr);
     maybe_sleep(3);                              // mutex held, predicate already false
-    return real(c, m);
+    if (worker) g_in_wait.fetch_add(1);
+    int r = real(c, m);
+    if (worker) g_in_wait.fetch_sub(1);
+    return r;
+}
+
+// worker threads are created by the loop thread (initialize / execute): count creations and ends exactly
+static std::atomic<uint64_t> g_seq{0};
+static inline uint64_t seq() { return g_seq.fetch_add(1) + 1; }
+static std::atomic<int> g_track{0}, g_created{0}, g_ended{0};
+struct WRec { std::atomic<uint64_t> s{0}, e{0}; std::atomic<int> epoch{0}; };
+static const int kMaxW = 1024;
+static WRec g_w[kMaxW];
+static std::atomic<int> g_epoch{0};               // case number: threads of an earlier case do not count
+static thread_local int tl_widx = 0;              // 0 = not a tracked worker; else index into g_w (== thread number)
+struct Tramp { void *(*fn)(void *); void *arg; int idx; int epoch; };
+static void *tramp(void *p) {
+    Tramp t = *(Tramp *)p; delete (Tramp *)p;
+    tl_widx = t.idx;
+    if (t.epoch == g_epoch.load()) g_w[t.idx].s = seq();
+    void *r = t.fn(t.arg);
+    if (t.epoch == g_epoch.load()) { g_w[t.idx].e = seq(); g_ended.fetch_add(1); }
+    return r;
+}
+typedef int (*pcreate_t)(pthread_t *, const pthread_attr_t *, void *(*)(void *), void *);
+extern "C" int pthread_create(pthread_t *th, const pthread_attr_t *attr, void *(*fn)(void *), void *arg) {
+    static pcreate_t real = (pcreate_t)dlsym(RTLD_NEXT, "pthread_create");
+    if (!g_track.load() || !pthread_equal(pthread_self(), g_main_thr)) return real(th, attr, fn, arg);
+    int idx = g_created.fetch_add(1) + 1;
+    if (idx >= kMaxW) return real(th, attr, fn, arg);
+    g_w[idx].s = 0; g_w[idx].e = 0;
+    return real(th, attr, tramp, new Tramp{fn, arg, idx, g_epoch.load()});
 }
 
 // ---------------------------------------------------------------- recording
-static std::atomic<uint64_t> g_seq{0};
-static inline uint64_t seq() { return g_seq.fetch_add(1) + 1; }
 
 struct TaskRec {
     int prio = 0; bool cb = false; unsigned dur_us = 0; bool null_token = false;
@@ -93,7 +133,8 @@ static size_t g_ntasks = 0;
 
 static std::mutex g_thr_mu;
 static std::map<std::thread::id, int> g_thr_ids;
-static int thr_index() {                         // loop thread = 0, workers 1.. by first appearance
+static int thr_index() {                         // loop thread = 0, workers = creation number (1..)
+    if (tl_widx != 0) return tl_widx;
     std::lock_guard<std::mutex> lg(g_thr_mu);
     auto id = std::this_thread::get_id();
     auto it = g_thr_ids.find(id);
@@ -147,11 +188,24 @@ static void reset_case() {
     g_ntasks = 0;
     g_tasks.reset(new TaskRec[kMaxTasks]);
     g_seq = 0;
+    g_track = 0; g_epoch.fetch_add(1); g_created = 0; g_ended = 0;
     {
         std::lock_guard<std::mutex> lg(g_thr_mu);
         g_thr_ids.clear();
     }
     thr_index();
+}
+
+// every tracked worker thread that has not ended is blocked in pthread_cond_wait and no accepted task is unfinished
+static std::vector<int> *g_cancelled = nullptr;
+static bool quiescent() {
+    if (g_cleaned) return true;
+    for (size_t k = 0; k < g_ntasks; ++k) {
+        bool can = false; if (g_cancelled) for (int x : *g_cancelled) if ((size_t)x == k) can = true;
+        if (!can && g_tasks[k].e.load() == 0) return false;
+    }
+    int live = g_created.load() - g_ended.load();
+    return g_in_wait.load() == live;
 }
 
 int main() {
@@ -167,8 +221,12 @@ int main() {
     int64_t fin_deadline = 0;                     // != 0: `fin` is waiting for callbacks
     std::vector<int> cancelled;                   // cancel answered 0
     bool fin_done = false;
+    g_cancelled = &cancelled;
 
     auto print_events = [&] {
+        int nw = g_created.load();
+        for (int i = 1; i <= nw && i < kMaxW; ++i)
+            std::cout << "W " << i << " " << g_w[i].s.load() << " " << g_w[i].e.load() << "\n";
         for (size_t k = 0; k < g_ntasks; ++k) {
             TaskRec &t = g_tasks[k];
             if (t.nbody.load() > 0)
@@ -210,6 +268,7 @@ int main() {
             && vh::to_u64(w[4], c) && vh::to_u64(w[5], d) && a <= 64 && b <= 64 && d <= 1000 && !g_tp && !g_wt) {
             g_pseed = (uint32_t)c * 2654435761u + 12345u;
             g_perturb = (int)d;
+            g_track = 1;
             bool ok;
             if (w[1] == "pool") { g_tp = new ThreadPool(g_loop); ok = g_tp->initialize((ssize_t)a, (ssize_t)b); }
             else { g_wt = new WorkThread(g_loop); ok = true; }
@@ -234,13 +293,22 @@ int main() {
                 t.cbthr = thr_index();
                 t.cbq = seq();
             };
+            // worker-level observation for the spawn rule: is the pool quiescent (every live worker blocked in
+            // the wait), what does snapshot() say just before, how many threads does execute() create
+            bool quiet = quiescent();
+            size_t thr0 = 0, idle0 = 0, undo0 = 0;
+            if (g_tp) { auto ss = g_tp->snapshot(); thr0 = ss.thread_num; idle0 = ss.idle_thread_num;
+                        for (size_t i = 0; i < THREAD_POOL_PRIO_SIZE; ++i) undo0 += ss.undo_task_num[i]; }
+            int created0 = g_created.load();
             uint64_t qb = seq();
             cabinet::Token tok;
             if (g_tp) tok = t.cb ? g_tp->execute(body, cbf, (int)pr) : g_tp->execute(body, (int)pr);
             else tok = t.cb ? g_wt->execute(body, cbf) : g_wt->execute(body);
             uint64_t qa = seq();
+            int spawned = g_created.load() - created0;
             if (tok.isNull()) { std::cout << "P exec null " << qb << " " << qa << "\n"; }
             else { t.token = tok; ++g_ntasks; std::cout << "P exec " << k << " " << qb << " " << qa << "\n"; }
+            std::cout << "M spawn " << spawned << " " << (quiet ? 1 : 0) << " " << thr0 << " " << idle0 << " " << undo0 << "\n";
         } else if (op == "stat" && w.size() == 2 && vh::to_u64(w[1], a) && a < g_ntasks && (g_tp || g_wt)) {
             uint64_t qb = seq();
             int st = g_tp ? (int)g_tp->getTaskStatus(g_tasks[a].token) : (int)g_wt->getTaskStatus(g_tasks[a].token);
@@ -289,12 +357,26 @@ int main() {
                 usleep(200);
             }
             std::cout << "P drain " << ((ok || g_cleaned) ? "ok" : "timeout") << "\n";
+        } else if (op == "settle" && w.size() == 1 && (g_tp || g_wt)) {
+            // wait until the pool is quiescent: no unfinished task, every live worker blocked in the wait, then
+            // let the loop run the posted joins (next passes) — report what snapshot() says
+            int64_t dl = now_ms() + g_watchdog_ms;
+            bool ok = false;
+            while (!(ok = quiescent()) && now_ms() < dl) usleep(200);
+            std::cout << "P settle " << (ok ? "ok" : "timeout") << "\n";
+            if (g_tp && ok) {
+                auto ss = g_tp->snapshot(); size_t u = 0;
+                for (size_t i = 0; i < THREAD_POOL_PRIO_SIZE; ++i) u += ss.undo_task_num[i];
+                std::cout << "M quiet " << ss.thread_num << " " << ss.idle_thread_num << " " << ss.doing_task_num << " " << u
+                          << " " << (g_created.load() - g_ended.load()) << "\n";
+            } else std::cout << "M quiet -\n";
         } else if (op == "cleanup" && w.size() == 1 && (g_tp || g_wt)) {
             uint64_t qb = seq();
             guarded_cleanup();
             uint64_t qa = seq();
+            int live = g_created.load() - g_ended.load();     // worker threads whose thread function has not returned
             g_cleaned = true;
-            std::cout << "P cleanup ok " << qb << " " << qa << "\n";
+            std::cout << "P cleanup ok " << qb << " " << qa << " " << live << "\n";
         } else if (op == "fin" && w.size() == 1 && !fin_done) {
             fin_done = true;
             fin_deadline = now_ms() + 2000;
